@@ -26,8 +26,6 @@ inductive Cover where
   | maskBody
   /-- error text went through `passRE`: `mask_error_independent` -/
   | maskError
-  /-- argument went through `apiRE` (request URL): `mask_api_uri_independent` -/
-  | maskApi
   /-- NSX login form logged with `j_password=xxx`: `nsx_login_log_independent` -/
   | nsxLogin
   /-- `console.Conn`: device output / regex / command of the change script, never what `Send` got:
@@ -45,7 +43,6 @@ inductive Cover where
 def cover : List (Nat × Cover) := [
   (2492921266, .maskUri),    -- panos, session, M:passRE            #1  (getAPIKey: DoLog(loggedURI))
   (797694342, .maskBody),    -- panos, session, M:keyRE             #1  (getAPIKey: DoLog(loggedBody))
-  (2313729829, .maskApi),    -- panos, session, M:apiRE             #1  (httpPrefixGetLog: DoLog(loggedURI))
   (3243825016, .maskError),  -- httpdevice, runlog, M:passRE@http.Client.Get[T:key+T:pass] #1 (TryReachableHTTPLogin: Warning(err))
   (3659553034, .fc17)        -- device, runlog, T:key@http.Client.Get[T:key+T:pass]        #1 (ApproveOrCompare: Abort(err))
 ]
@@ -57,7 +54,7 @@ def lookup (id : Nat) : List (Nat × Cover) → Option Cover
 /-- Is the class the table gives compatible with the taint the translator computed? -/
 def compatible (taintCode : Nat) : Cover → Bool
   | .fc17 => taintCode == 9
-  | .maskUri | .maskBody | .maskError | .maskApi => taintCode == 1
+  | .maskUri | .maskBody | .maskError => taintCode == 1
   | .clean | .nsxLogin | .deviceOutput | .copyOfRunLog | .wrapper => taintCode == 0
 
 /-- A site into which no secret flows (taintCode 0) needs no entry: whatever it writes — a new message,
